@@ -122,6 +122,12 @@ void hough_circle_transform_brute(ImageView const& input,
                 translate(translated_circle, {x, y});
                 for (const auto& point : translated_circle)
                 {
+                    // a candidate circle may stick out of the input: there is no edge pixel out there
+                    if (point.x < 0 || point.y < 0 ||
+                        point.x >= input.width() || point.y >= input.height())
+                    {
+                        continue;
+                    }
                     if (input(point))
                     {
                         ++current_image(x_index, y_index)[0];
